@@ -113,6 +113,13 @@ where
 
             let (dist, overflow) = distances[ix(i)].overflowing_add(w);
 
+            // A sum below `K::min()`: estimates never undercut true distances, so the distance of
+            // `j` is not representable, which with representable shortest distances only a
+            // negative cycle causes (skipping the relaxation would leave it unreported).
+            if overflow && w < K::default() {
+                return Err(NegativeCycle(()));
+            }
+
             if !overflow && dist < distances[ix(j)] {
                 distances[ix(j)] = dist;
                 predecessors[ix(j)] = Some(i);
